@@ -479,7 +479,13 @@ func randGeom(c *ctx, depth, maxPts int, fl func() float64) orb.Geometry {
 		}
 		return mp
 	case 7:
-		return orb.Bound{Min: pt(), Max: pt()}
+		a, b := pt(), pt() // a well-formed bound: Min <= Max in both axes
+		for d := 0; d < 2; d++ {
+			if b[d] < a[d] {
+				a[d], b[d] = b[d], a[d]
+			}
+		}
+		return orb.Bound{Min: a, Max: b}
 	default:
 		col := orb.Collection{}
 		for i := 0; i < c.rng.Intn(4); i++ {
